@@ -180,5 +180,14 @@ check("C10", "PVM",
       floors={"any": {"ending_trap": 100, "ending_bad-jump": 100, "ending_halt_out32": 100, "ending_halt_out0": 50, "ending_halt_out33": 50, "ending_out_of_gas": 1000, "oog_after_checkpoint": 300, "programs_with_checkpoint_and_mutation": 500}})
 
 check("C33", "PVM",
-      rule="TBD", technique="reference-model monitor (model of machine/pages/poke/invoke/peek/expunge with refpvm as the inner engine) over call sequences, crash capture, outer-memory canaries",
-      level_text="TBD", note="TBD", shards=(8, 16))
+      rule="case = one sequence of 1..30 refine host calls (machine, pages, poke, invoke, peek, expunge through the real RefineOmegas table) on an outer machine with 4 RW + 1 RO canary pages: "
+           "machine with valid (assembled: loads/stores into 0x10000..0x15fff, ecalli 0..299, halt/trap/loop/fault), hostile and random blobs, sources running off the mapped range; pages with p around 14..21, 2^20-1, random 64-bit p/c, modes 0..5; poke/peek of 0..299 bytes straddling inner page edges and the end of the outer RO page; "
+           "invoke with gas 0..59 or >= 2^63, registers aimed at inner pages, parameter block in RW or RO memory; expunge. After EVERY call: panic/continue, w7 (and w8 for invoke), the other registers, the exact bytes written to outer memory (nothing outside the destination) and the complete inner-machine table (existence, pc, program, every page's access and content) are compared with a model whose inner engine is refpvm. "
+           "A call the model does not judge (gas >= 2^63, refpvm-unmodelled programs, peek z=0 on an absent machine) ends the sequence and is counted. distinct_nontrivial = distinct sequences",
+      technique="reference-model monitor (model of machine/pages/poke/invoke/peek/expunge with refpvm as the inner engine) over call sequences, crash capture, outer-memory canaries",
+      level_text="Every call of generated inner-machine call sequences is compared with an independent model (results, outer memory byte-for-byte, complete inner state) and watched for Go panics; held = no divergence on what was explored.",
+      note=PVM_NOTE + " The fault address reported by invoke may lie anywhere in the faulting page (as for C01). Historical-lookup/export/fetch are not part of this property.",
+      shards=(8, 16),
+      floors={"any": {"calls_machine": 5000, "calls_pages": 5000, "calls_poke": 5000, "calls_peek": 5000, "calls_invoke": 5000, "calls_expunge": 2000,
+                      "copies_ok_peek": 50, "copies_ok_poke": 30, "invoke_exit_0": 50, "invoke_exit_1": 200, "invoke_exit_2": 200, "invoke_exit_3": 100, "invoke_exit_4": 100,
+                      "pages_ok_mode_0": 200, "pages_ok_mode_1": 200, "pages_ok_mode_2": 200, "pages_ok_mode_3": 100, "pages_ok_mode_4": 100}})
